@@ -4,7 +4,7 @@ from . import widths, carriers, funcs, routes
 EXPLANATION = (
     "Carrier/width typing (the rule is the property): with the storage invariant 'o.val is a Python-int object array iff o.n_word >= 64, else int64/uint64' (decided by C18.R1 on "
     "set_val, wrap and every kernel guard) each arithmetic node of _add_raw/_sub_raw/_mul_raw gets an exact bit width (bits(o.val)=n_word, bits(e*2^k)=bits+k, bits(e1*e2)=sum) under the "
-    "optimal n_frac; R1 a node that can be a machine integer needs a cast guard `T >= 64` with bits <= T+1 (ordering decided on terms) or an operand bound n_word <= 63 that covers it; "
+    "optimal n_frac; R1 a node that can be a machine integer needs a cast guard `T >= 64` with bits <= T+1 (ordering decided on terms) or an operand bound n_word <= 63 that covers it; a cast of codes to a fixed machine type (astype(np.int64)) takes the value out of its operand's carrier: unsigned words need one more bit and sums of such values need their own bound; conditional expressions inside a kernel are case-split with their tests as guards; "
     "R2 no node combines an int64 with a uint64 array (NumPy-2 promotes to float64) unless a guard implied by x.signed != y.signed makes one side Python ints; R3 set_val's machine-integer "
     "branch must be left whenever |val|*2^n_frac can reach 2^63 (the test must be on the scaled value with the int64 capacity); R4 the value type handed to the pre-scale cast never turns "
     "Python ints into float64. Today's tree has 8 genuine violations of R1-R3 (listed in known_findings.json with failing inputs); any other node or kernel is still reported.")
